@@ -28,7 +28,7 @@ for a, b in (('x', 'y'), ('y', 'x')):
         (_mk(rf'^{a}{a}$'), f'{b}{b}'),
         (_mk(rf'^{a}(?=$|\d|_|min|max|cen|pos|peak|idx|size|shape|border|stddev|sigma|fwhm|off|orig|start|stop|fs$|hw|len|'
              rf'grid|bins|range|coord|val|init|fit|err|centroid|cutout|index|indices|edge|extent|half|width|lo$|hi$|low|high|'
-             rf'new|old|arr|data|marg|col|mirror|masked|weight|sum|mom|var|std|hat|tr$|rot|prime|name|c$|p$|s$|i$|t$|m$|d$|w$|r$|n$|values?$)'), b),
+             rf'new|old|arr|data|marg|col|mirror|masked|_?range$|weight|sum|mom|var|std|hat|tr$|rot|prime|name|c$|p$|s$|i$|t$|m$|d$|w$|r$|n$|values?$)'), b),
         (_mk(rf'_{a}(?=$|\d|_|min|max|cen|pos|peak|idx|centroid|origin|stddev|fwhm|index|indices|name|shape|size)'), f'_{b}'),
     ]
 _FLIPS_ALL = _FLIPS
@@ -75,6 +75,9 @@ def order_of(expr):
     """'YX' / 'XY' / None for the thing being indexed."""
     if isinstance(expr, ast.Attribute):
         n = expr.attr
+        # BoundingBox.center is documented (y, x)
+        if n == 'center' and 'bbox' in unparse(expr.value, 0).lower():
+            return 'YX'
     elif isinstance(expr, ast.Name):
         n = expr.id
     elif isinstance(expr, ast.Call):
@@ -184,6 +187,10 @@ COORD_ARGS = {
     'Cutout2D': (1, 'XY'),              # astropy Cutout2D position is (x, y)
     'unravel_index': (99, 'YX'),
 }
+# external functions with per-axis positional arguments: astropy discretize_model(model, x_range, y_range, ...)
+POS_AXIS_ARGS = {
+    'discretize_model': {1: X, 2: Y},
+}
 # callables / indexers whose 2-tuple result has a fixed order
 PAIR_RETURNS = {
     'mgrid': 'YX', 'ogrid': 'YX', 'indices': 'YX', 'unravel_index': 'YX', 'nonzero': 'YX', 'where': 'YX',
@@ -244,6 +251,17 @@ def axis_conflicts(func_node):
                         if vt != want:
                             out.append((n, f'`{fn}` takes its coordinates in ({want[1].lower()}, {want[2].lower()}) order but receives '
                                            f'`{unparse(n.args[pos], 50)}` ordered ({vt[1].lower()}, {vt[2].lower()})'))
+        # external APIs whose positional arguments belong to a fixed axis
+        if isinstance(n, ast.Call):
+            fn = unparse(n.func, 0).split('.')[-1]
+            for pos, want in POS_AXIS_ARGS.get(fn, {}).items():
+                if pos < len(n.args):
+                    vt = tag(n.args[pos])
+                    if isinstance(vt, str):
+                        checked += 1
+                        if vt != want:
+                            out.append((n, f'`{fn}` takes a {want}-axis value as positional argument {pos} but receives the '
+                                           f'{vt}-axis value `{unparse(n.args[pos], 50)}`'))
         # a, b = <call returning an ordered pair>
         if isinstance(n, ast.Assign) and len(n.targets) == 1 and isinstance(n.targets[0], (ast.Tuple, ast.List)) \
                 and len(n.targets[0].elts) == 2:
